@@ -52,6 +52,9 @@ def opts_for(name, theory):
     return kw
 
 
+DZ = 0.37      # height step of the two-height point lists
+
+
 def make_grid(gr):
     det = detector_grid(shape=(gr["nx"], gr["ny"]), spacing=(gr["sx"] * U, gr["sy"] * U), name="det")
     det = det.assign_coords(x=det.x.values + gr["ox"] * U, y=det.y.values + gr["oy"] * U)
@@ -80,7 +83,7 @@ def run(ctx):
     rng = random.Random(ctx.seed)
     nprng = np.random.default_rng(ctx.seed)
     ctx.rule = ("TLC enumerates all grids up to MaxN x MaxN (incl. 1xN) x 2 spacings per axis x 2 "
-                "origins per axis x every crop window x 3 point orders, with exact element positions; "
+                "origins per axis x every crop window x 3 point orders x 3 two-height point lists, with exact element positions; "
                 "each state is replayed with a real theory (rotating over Mie, layered Mie, "
                 "Multisphere, T-matrix, MieLens); distinct = (grid, view, theory); non-trivial = "
                 "view differs from the plain grid")
@@ -105,23 +108,43 @@ def run(ctx):
             if gkey not in full:
                 full[gkey] = by_position(calc_holo(det, scat, **kw))
             ref = full[gkey]
+            if view["kind"] == "points3":
+                # the same lattice at the detector plane (H = 0) and DZ above it (H = 1) in one list
+                hkey = gkey + ("upper",)
+                if hkey not in full:
+                    full[hkey] = by_position(calc_holo(det.assign_coords(z=det.z.values + DZ), scat, **kw))
+                ref = {(p[0], p[1], 0): v for p, v in full[gkey].items()}
+                ref.update({(p[0], p[1], 1): v for p, v in full[hkey].items()})
             if view["kind"] == "grid":
                 vdet = det
             elif view["kind"] == "crop":
                 lo, sh = view["lo"], view["sh"]
                 vdet = det.isel(x=slice(lo[0], lo[0] + sh[0]), y=slice(lo[1], lo[1] + sh[1]))
+            elif view["kind"] == "points3":
+                xs = np.array([p[0] * U for p in pos])
+                ys = np.array([p[1] * U for p in pos])
+                vdet = detector_points(x=xs, y=ys, z=np.array([p[2] * DZ for p in pos]))
             else:
                 xs = np.array([p[0] * U for p in pos])
                 ys = np.array([p[1] * U for p in pos])
                 vdet = detector_points(x=xs, y=ys, z=0.0)
             vbefore = fp.fingerprint(vdet)
             res = calc_holo(vdet, scat, **kw)
+            if view["kind"] == "points3":
+                zs = np.round(np.asarray(vdet.z.values) / DZ).astype(int)
+                vals = res.values.reshape(len(xs), -1)
+                got = {(int(round(xs[k] / U)), int(round(ys[k] / U)), int(zs[k])): vals[k] for k in range(len(xs))}
             if view["kind"] == "points" and not hasattr(res, "x"):
                 # the result of a point detector carries no x/y coordinates (reported under C01);
                 # element k of the result belongs to point k of the detector
                 res = res.assign_coords(x=("point", vdet.x.values), y=("point", vdet.y.values))
-            got = by_position(res)
+            if view["kind"] != "points3":
+                got = by_position(res)
         except Exception as e:
+            if view["kind"] == "points3" and name.startswith("MieLens") and isinstance(e, ValueError) \
+                    and "fixed z" in str(e):
+                ctx.trace_ok()      # the lens theory states that it needs one detector height: a clear refusal
+                continue
             ctx.violation("view/%s/exception" % view["kind"], {"grid": gr, "view": view, "theory": name,
                                                               "exc": repr(e)})
             continue
